@@ -60,6 +60,9 @@ func genO(ch *vs.Choices, tier string) *oProg {
 		t := &oTask{Name: fmt.Sprintf("o%d", i)}
 		if ch.Bool(1, 4) {
 			t.Prefix = fmt.Sprintf("pre-%d", i)
+			if ch.Bool(1, 3) {
+				t.Prefix = fmt.Sprintf("cov>=8%d%%s%%", i) // a prefix is data, whatever it looks like to a formatter
+			}
 		}
 		nc := 1 + ch.Draw(3)
 		for k := 0; k < nc; k++ {
@@ -132,7 +135,7 @@ func (p *oProg) YAML() string {
 	for _, t := range p.Tasks {
 		fmt.Fprintf(&sb, "  %s:\n", t.Name)
 		if t.Prefix != "" {
-			fmt.Fprintf(&sb, "    prefix: %s\n", t.Prefix)
+			fmt.Fprintf(&sb, "    prefix: '%s'\n", t.Prefix)
 		}
 		if len(t.Deps) > 0 {
 			sb.WriteString("    deps:\n")
